@@ -70,7 +70,7 @@ func epsSM9() []*epT {
 				x.g("sm9.VerifyASN1", func() { ok = sm9.VerifyASN1(signPub(), sm9UID, sm9HidSign, hash, in) })
 				return
 			}},
-		{name: "sm9.SignMasterPublicKey.Verify", costly: true, fast: true, der: true, pairLimit: -1,
+		{name: "sm9.SignMasterPublicKey.Verify", costly: true, der: true, pairLimit: -1,
 			seeds: []seedT{sig("sm9sig-a")},
 			call: func(x *cx, in []byte) (ok bool) {
 				x.g("sm9.SignMasterPublicKey.Verify", func() { ok = signPub().Verify(sm9UID, sm9HidSign, hash, in) })
@@ -98,21 +98,21 @@ func epsSM9() []*epT {
 				x.g("sm9.DecryptASN1", func() { _, err := sm9.DecryptASN1(kr.SM9EncUser(), sm9UID, in); ok = err == nil })
 				return
 			}},
-		{name: "sm9.EncryptPrivateKey.Decrypt[opts=uid]", costly: true, fast: true, der: true, pairLimit: -1,
+		{name: "sm9.EncryptPrivateKey.Decrypt[opts=uid]", costly: true, der: true, pairLimit: -1,
 			seeds: []seedT{derCT("sm9ct-der-cbc", msgShort, sm9.SM4CBCEncrypterOpts)},
 			call: func(x *cx, in []byte) (ok bool) {
 				x.g("sm9.EncryptPrivateKey.Decrypt[opts=uid]", func() { _, err := kr.SM9EncUser().Decrypt(nil, in, sm9UID); ok = err == nil })
 				x.g("sm9.EncryptPrivateKey.DecryptASN1", func() { kr.SM9EncUser().DecryptASN1(sm9UID, in) })
 				return
 			}},
-		{name: "sm9.EncryptPrivateKey.Decrypt[DecrypterOptsWithUID,nil]", costly: true, fast: true, der: true, pairLimit: -1,
+		{name: "sm9.EncryptPrivateKey.Decrypt[DecrypterOptsWithUID,nil]", costly: true, der: true, pairLimit: -1,
 			seeds: []seedT{derCT("sm9ct-der-xor", msgShort, nil)},
 			call: func(x *cx, in []byte) (ok bool) {
 				o := must(sm9.NewDecrypterOptsWithUID(nil, sm9UID))
 				x.g("sm9.EncryptPrivateKey.Decrypt[DecrypterOptsWithUID,nil]", func() { _, err := kr.SM9EncUser().Decrypt(nil, in, o); ok = err == nil })
 				return
 			}},
-		{name: "sm9.EncryptPrivateKey.Decrypt[DecrypterOptsWithUID,SM4-CBC]", small: true, costly: true, fast: true, der: true, pairLimit: -1,
+		{name: "sm9.EncryptPrivateKey.Decrypt[DecrypterOptsWithUID,SM4-CBC]", small: true, costly: true, der: true, pairLimit: -1,
 			seeds: []seedT{rawCT("sm9ct-raw-cbc", msgShort, sm9.SM4CBCEncrypterOpts), derCT("sm9ct-der-cbc", msgShort, sm9.SM4CBCEncrypterOpts)},
 			call: func(x *cx, in []byte) (ok bool) {
 				o := must(sm9.NewDecrypterOptsWithUID(sm9.SM4CBCEncrypterOpts, sm9UID))
